@@ -39,8 +39,10 @@ K2 == [name |-> "k1", chunks |-> 2, perm |-> 5]
 K3 == [name |-> "k2", chunks |-> 1, perm |-> 3]
 K1r == [name |-> "k1", chunks |-> 1, perm |-> 1]      \* the same key as K1, declared read-only by another action
 K0 == [name |-> "$sponsor-balance", chunks |-> 1, perm |-> 1]                              \* an action declaring the sponsor's own balance key
+K4 == [name |-> "k3", chunks |-> 0, perm |-> 7]       \* chunk suffix 0: no value units, but the per-key units are still charged
+K5 == [name |-> "k2", chunks |-> 65535, perm |-> 5]   \* the largest suffix
 KeySeqs == {<<>>, <<K1>>, <<K2>>, <<K3>>, <<K1, K2>>, <<K1, K3>>, <<K2, K3>>, <<K1, K2, K3>>,
-            <<K1r>>, <<K1r, K3>>, <<K0>>, <<K0, K1>>, <<K0, K2, K3>>}
+            <<K1r>>, <<K1r, K3>>, <<K0>>, <<K0, K1>>, <<K0, K2, K3>>, <<K4>>, <<K4, K1>>, <<K5>>}
 KeyActions == [size : {1}, keys : KeySeqs, compute : {0, 2}]
 
 Init ==
